@@ -31,6 +31,8 @@ def run(rep, facts, tier):
     fx = facts['dev']
     rep.rule('C04.R1', 'operands are never modified: buffer mutation only through data_mut (COW) on an owned receiver; range of a borrowed receiver written only by read')
     rep.rule('C04.R2', 'length-relative and accumulating buffer writes are dominated by normalisation of the buffer to the value')
+    rep.rule('C04.R3', 'who reads raw buffer bytes: only the offset-aware primitives (bit iterator, iter8/cut_bits, to_uint) and slice() behind its alignment test')
+    check_raw_readers(rep, fx)
     dm = fx.need(DM)
     # ---------- R1
     callers = sorted(fx.callers().get(DM, ()))
@@ -172,6 +174,93 @@ def run(rep, facts, tier):
                     '%s in %s is not preceded on every path by a normalisation of the buffer (truncate dominates=%s; %s): bytes or bits that lie '
                     'beyond the value in a uniquely owned buffer end up in the result' % (kind, short(fn), t_ok, mask_why), fn, at)
     rep.floor('C04.R2 length-relative / accumulating writes', n_w, 3)
+
+
+RAW_READERS = {
+    'bitstr::Bitstr::data_mut': 'the copy-on-write point (R1)',
+    '<bitstr::Bitstr as core::clone::Clone>::clone': 'shares the buffer, reads no byte',
+    'bitstr::Bitstr::detach': 'reads the reference count only (C03.R7)',
+    'bitstr::Bitstr::slice': '@aligned',
+    'bitstr::Bitstr::to_uint': '@cut_bits',
+    "<bitstr::Bits<'a> as core::iter::traits::iterator::Iterator>::next": 'bit-addressed: data[pos / 8] masked by pos % 8',
+    "<bitstr::Iter8<'a> as core::iter::traits::iterator::Iterator>::next": '@cut_bits',
+}
+
+
+def _reads_buffer(f):
+    """statements / call operands of f that name the field `data` of a Bitstr (directly or through the `bs` of an iterator)"""
+    hits = []
+
+    def visit(j, at):
+        if isinstance(j, dict):
+            if 'l' in j and 'p' in j and isinstance(j['l'], int):
+                names = [x.get('f') if isinstance(x, dict) else x for x in j['p']]
+                if 'data' in names:
+                    i = names.index('data')
+                    adt = f.locals[j['l']].get('adt', '') if j['l'] < len(f.locals) else ''
+                    before = [n for n in names[:i] if n != '*']
+                    if (adt == 'bitstr::Bitstr' and not before) or (before and before[-1] == 'bs'):
+                        hits.append(at)
+                return
+            for v in j.values():
+                visit(v, at)
+        elif isinstance(j, list):
+            for v in j:
+                visit(v, at)
+    for bb in f.reachable_blocks():
+        for st in f.blocks[bb]['stmts']:
+            if st['k'] == 'assign' and st['rv']['k'] == 'agg':
+                continue      # constructing a Bitstr is not a read
+            visit(st, (bb, st.get('at')))
+        visit(f.blocks[bb]['term'], (bb, f.blocks[bb]['term'].get('at')))
+    return hits
+
+
+def check_raw_readers(rep, fx):
+    from .c13 import _only_called_by
+    from .c08 import guard_facts
+    from ..zone import strip as zstrip
+    n = 0
+    for fn in sorted(fx.fns):
+        if 'bitstr::' not in fn or fn.startswith('bitstr_ext::') or 'BitvecBuilder' in fn:
+            continue
+        f = fx.fns[fn]
+        hits = _reads_buffer(f)
+        if not hits:
+            continue
+        n += 1
+        key = 'C04.R3:raw-reader:%s' % fn
+        how = RAW_READERS.get(fn)
+        if how is None:
+            via = _only_called_by(fx, fn, RAW_READERS, set())
+            ok = via is not None
+            rep.add('C04.R3', key, ok, 'helper called only by %s' % ', '.join(short(v) for v in via) if ok else
+                    '%s reads the bytes of the backing buffer itself: whole bytes are only meaningful for a value that starts and ends on a byte '
+                    'boundary, and bits outside the range belong to other values (or are stale)' % short(fn), fn, hits[0][1])
+            continue
+        if how == '@aligned':
+            # every read is behind start % 8 == 0 and is_bytestr()
+            ok = True
+            for (bb, at) in hits:
+                fs = guard_facts(f, bb)
+                al = any(op == 'Eq' and 'Rem(' in expr_str(zstrip(a), -10) and expr_str(zstrip(b), -10) == '0' and 'start' in expr_str(zstrip(a), -10)
+                         for (op, a, b) in fs if op == 'Eq')
+                by = any(str(op).startswith('Call:') and 'is_bytestr' in str(op) and b is True for (op, a, b) in fs) or \
+                    any(str(op).startswith('Call:') and 'is_u8_slice' in str(op) and b is True for (op, a, b) in fs)
+                al = al or any(str(op).startswith('Call:') and 'is_u8_slice' in str(op) and b is True for (op, a, b) in fs)
+                if not (al and by):
+                    ok = False
+            rep.add('C04.R3', key, ok, 'whole bytes handed out only when start % 8 == 0 and the length is a whole number of bytes' if ok else
+                    '%s hands out raw bytes without both alignment tests (start % 8 == 0 and whole-byte length)' % short(fn), fn, hits[0][1])
+        elif how == '@cut_bits':
+            cuts = [t for _, t in f.calls() if callee_of(t) == 'bitstr::cut_bits']
+            ok = bool(cuts) and all(('.data' in expr_str(f.expr_of_operand(t['args'][0]), -30) or 'bytes_range' in expr_str(f.expr_of_operand(t['args'][0]), -30)
+                                     or 'Index' in expr_str(f.expr_of_operand(t['args'][0]), -30)) for t in cuts)
+            rep.add('C04.R3', key, ok, 'every byte read goes through cut_bits(byte, pos, end)' if ok else
+                    '%s reads buffer bytes that do not pass through cut_bits' % short(fn), fn, hits[0][1])
+        else:
+            rep.add('C04.R3', key, True, how, fn, hits[0][1], nontrivial=False)
+    rep.floor('C04.R3 functions naming the buffer', n, 5)
 
 
 def _unconditional(f, bb, dom):
